@@ -1,4 +1,4 @@
-import NA.Model.IosSession
+import NA.Proofs.C15Dec
 import NA.Core.IOUtil
 /-! Driver for C15 (core only). One case per line, fields separated by TAB; inside a field the
 characters `\ LF TAB CR BEL | ; = ,` are written `\\ \n \t \r \a \p \s \e \c`.
@@ -6,7 +6,8 @@ characters `\ LF TAB CR BEL | ; = ,` are written `\\ \n \t \r \a \p \s \e \c`.
 * `find <s>`                                  → `none` or `<pre> TAB <msg> TAB <post>`   (bannerRe)
 * `strip <fixedIgnored> <active> <out> <pend>` → `<ok|abort…> TAB <out'> TAB <need> TAB <pend'>`  (stripReloadBanner)
 * `dialog <fixed> <changes |> <behavs |> <specials |>` →
-      `R=<result> TAB T=<lines |> TAB W=<cmd,line |> TAB G=<guardOK>,<pendingAfter>,<rearms>,<changes>`
+      `R=<result> TAB T=<lines |> TAB W=<cmd,line |> TAB G=<guardOK>,<pendingAfter>,<rearms>,<changes>
+       TAB H=<Chg.cleanB of all>,<Chg.noProbeFirstB of all>,<specOk>` (hypotheses of the banner theorems)
   behav = `<form>,<msg>,<out>` with form `N`, `A<pad>`, `B<off>`, `C<pad>`, `D`;
   special = `<line>=<reply>;<reply>…`, a reply containing `<!>` where the device reads a line. -/
 namespace NA.Drv.C15
@@ -75,6 +76,15 @@ def parseSpecial (s : String) : Option (Str × List (List Str)) :=
 
 def joinBarS (l : List Str) : String := "|".intercalate (l.map esc)
 
+/-- pair the changes with the behaviours of their lines -/
+def mkChgs : List Str → List Behav → Option (List Chg)
+  | [], _ => some []
+  | c :: cs, bs =>
+    match splitOnNL c, bs with
+    | [l], b :: bs' => (mkChgs cs bs').map (Chg.one l b :: ·)
+    | [l1, l2], b1 :: b2 :: bs' => (mkChgs cs bs').map (Chg.two l1 l2 b1 b2 :: ·)
+    | _, _ => none
+
 def dummyDev : Device Unit := { step := fun _ _ => ((), []) }
 
 def answer (line : String) : String :=
@@ -97,7 +107,10 @@ def answer (line : String) : String :=
       let ls := linesOf st'.trace
       let g := Guard.run ls
       let ws := "|".intercalate (st'.warns.map fun (c, l) => esc c ++ "," ++ esc l)
-      s!"R={showRes r}\tT={joinBarS ls}\tW={ws}\tG={b2s (guardOK ls)},{b2s g.pending},{rearms ls},{g.changes}"
+      let hyp := match mkChgs changes behavs with
+        | some gs => s!"{b2s (gs.all Chg.cleanB)},{b2s (gs.all Chg.noProbeFirstB)},{b2s (specOk gs)}"
+        | none => "0,0,0"
+      s!"R={showRes r}\tT={joinBarS ls}\tW={ws}\tG={b2s (guardOK ls)},{b2s g.pending},{rearms ls},{g.changes}\tH={hyp}"
     | _, _ => "bad-input"
   | ["monitor", ls] =>
     let l := (splitList ls "|").map un
